@@ -7,6 +7,7 @@ import (
 	"os"
 	"path/filepath"
 	"regexp"
+	"sort"
 	"strings"
 	"time"
 
@@ -45,7 +46,11 @@ func cmdRun(args []string) {
 	incremental := fs.Bool("incremental", false, "incremental solver sessions (push/pop)")
 	summaries := fs.Bool("summaries", false, "use lemma summaries (compkey)")
 	maxPaths := fs.Int("max-paths", 200000, "path cap per harness")
+	forkstats := fs.Bool("forkstats", false, "print fork-site statistics")
 	fs.Parse(args)
+	if *forkstats {
+		symex.EnableForkStats()
+	}
 
 	overlay := map[string][]byte{}
 	pkgDir := filepath.Join(*repo, *pkgRel)
@@ -101,6 +106,23 @@ func cmdRun(args []string) {
 		}
 	} else {
 		os.Stdout.Write(b)
+	}
+	if *forkstats {
+		type kv struct {
+			k string
+			v int
+		}
+		var l []kv
+		for k, v := range symex.ForkStats() {
+			l = append(l, kv{k, v})
+		}
+		sort.Slice(l, func(i, j int) bool { return l[i].v > l[j].v })
+		for i, x := range l {
+			if i > 25 {
+				break
+			}
+			fmt.Fprintf(os.Stderr, "fork %6d %s\n", x.v, x.k)
+		}
 	}
 	// brief summary on stderr
 	for _, r := range res {
